@@ -174,65 +174,7 @@ pub fn parse_behaviour(v: &Value) -> Vec<Op> {
     ops
 }
 
-/// A strictly monotone map from abstract ticks to Durations with emb(0) = 0.
-#[derive(Clone, Debug)]
-pub struct Emb {
-    pub kind: &'static str,
-    table: Vec<Duration>,
-}
-
-pub const EMB_KINDS: [&str; 7] = ["ns", "w", "year", "wm1", "halfw", "rand", "far"];
-
-impl Emb {
-    pub fn new(kind: &'static str, n: usize, w: Duration, max_tick: u64, seed: u64) -> Emb {
-        let wn = w.as_nanos() as u64;
-        let year = wn.saturating_mul(n as u64);
-        let mut rng = Rng(seed ^ 0xE3B);
-        let mut table = Vec::with_capacity(max_tick as usize + 1);
-        let mut acc: u64 = 0;
-        for k in 0..=max_tick {
-            if kind == "huge" {
-                // ~95 simulated years per tick: beyond 2^64 ns after a few ticks
-                table.push(Duration::from_secs(k * 3_000_000_000));
-                continue;
-            }
-            let d = match kind {
-                "ns" => k,
-                "w" => k * wn,
-                "year" => k * year,
-                "wm1" => if k == 0 { 0 } else { k * wn + (wn - 1) },
-                "halfw" => if wn >= 2 { k * (wn / 2) } else { k },
-                "rand" => {
-                    if k > 0 {
-                        // mixture: 1ns steps, sub-bucket steps, bucket multiples, year multiples
-                        acc += match rng.below(5) {
-                            0 => 1,
-                            1 => 1 + rng.below(wn.max(2)),
-                            2 => wn * (1 + rng.below(3)),
-                            3 => year * (1 + rng.below(2)),
-                            _ => year + 1 + rng.below(wn.max(2)),
-                        };
-                    }
-                    acc
-                }
-                "far" => {
-                    // like "w", but the last tick is a far-future outlier (bounded: the scan is
-                    // one bucket per step, keep it below ~2*10^5 steps)
-                    if k == max_tick && k > 0 { k * wn + 200_000 * wn + 3 } else { k * wn }
-                }
-                _ => unreachable!(),
-            };
-            table.push(Duration::from_nanos(d));
-        }
-        Emb { kind, table }
-    }
-    pub fn map(&self, k: u64) -> Duration {
-        self.table[k as usize]
-    }
-    pub fn inv(&self, d: Duration) -> Option<u64> {
-        self.table.binary_search(&d).ok().map(|i| i as u64)
-    }
-}
+pub use crate::emb::{Emb, EMB_KINDS};
 
 pub struct Cfg {
     pub n: usize,
